@@ -14,7 +14,7 @@ from . import c10
 ID = 'C18'
 LEVEL = 'model_checking'
 RULE = ('corpus: every clause shape with 0..3 variables that occur only inside head structures x 0..4 body-only variables '
-        'x 0..2 anonymous variables, the body trees with <= N operators in the C05 context, the repository\'s sample files, and 7 programs that are rejected at different stages (syntax, goal not callable, head name, too large, unsupported term). '
+        'x 0..2 anonymous variables, heads in which 2..5 variables occur twice, the body trees with <= N operators in the C05 context, the repository\'s sample files, and 7 programs that are rejected at different stages (syntax, goal not callable, head name, too large, unsupported term). '
         '(a) environment exploration of set-iteration order: the names set/frozenset are shadowed in the compiler modules by '
         'an order-controlled stand-in; every call is a choice point and EVERY permutation of its elements is explored at '
         'one call site (thorough: at every pair of call sites), all other sites keeping insertion order - the output must '
@@ -47,6 +47,13 @@ def corpus(tier):
                 if nb >= 2:
                     body += ', r(%s, _)' % ','.join(reversed(bv))
                 out.append(('vars-%d-%d-%d' % (nh, nb, na), '%s :- %s.\n' % (head, body)))
+    # heads in which several variables occur more than once as direct arguments
+    names = ['A', 'B', 'Cc', 'Dd', 'Count', 'Xs']
+    for nv in (2, 3, 4, 5):
+        vs = names[:nv]
+        out.append(('repeat-%d' % nv, 'p(%s) :- q(%s).\n' % (','.join(vs + vs), ','.join(reversed(vs)))))
+        out.append(('repeat-rev-%d' % nv, 'p(%s).\n' % ','.join(vs + list(reversed(vs)))))
+        out.append(('repeat-nested-%d' % nv, 'p(%s, f(%s)) :- r(%s).\n' % (','.join(vs), ','.join(vs), ','.join(vs))))
     for n in range(0, (1 if tier == 'quick' else 2) + 1):
         for i, t in enumerate(bodies.trees(n)):
             body, k = bodies.instantiate(t)
